@@ -306,6 +306,7 @@ def pair_configs(tier):
             cfgs.append(dict(KR=4, KQ=4, NS=2, rev=rev, shapes=SHAPES_THOROUGH, sj="0"))
     if tier == "quick":
         cfgs.append(dict(KR=4, KQ=4, NS=2, rev=False, shapes=["PP", "PPP", "PPPP"], sj="0"))
+        cfgs.append(dict(KR=4, KQ=4, NS=2, rev=True, shapes=["PP", "PPP", "PPPP"], sj="0"))
     else:
         cfgs.append(dict(KR=5, KQ=5, NS=2, rev=False, shapes=["PP", "PPP", "PPPP", "PQPP"], sj="0"))
     return cfgs
